@@ -361,6 +361,15 @@ class Interp(object):
                             except ValueError:
                                 pass
                         v = Arr(v, d['name'])
+                    elif isinstance(v, Arr) and v.name == 'literal':
+                        # char buf[N] = "text": a fresh array of N elements, the literal copied in, the rest zero
+                        t0 = t.replace('const ', '').strip()
+                        if t0.endswith(']') and '[' in t0:
+                            try:
+                                cnt = int(t0[t0.rindex('[') + 1:-1])
+                            except ValueError:
+                                cnt = len(v.elems)
+                            v = Arr(list(v.elems) + [AV.const(0)] * (cnt - len(v.elems)), d['name'])
                     env[d['ref']] = Cell(self.wrap(v, t))
         elif k == 'IfStmt':
             c = self.truth(self.eval(fn, n['cond'], env))
@@ -669,7 +678,12 @@ class Interp(object):
                 v = self.rvalue(fn, n['ch'][0], env)
                 return self.wrap(v, fn.type_of(n))
             if cast == 'PointerToBoolean':
-                return AV.const(1)
+                v = self.rvalue(fn, n['ch'][0], env)
+                if isinstance(v, AV):
+                    if v.is_const():
+                        return AV.const(1 if v.lo != 0 else 0)      # null pointer constant / integer-valued pointer
+                    raise Unsupported('pointer of unknown nullness at %s' % fn.loc(i))
+                return AV.const(1)      # address of a modelled object
             if cast in ('NoOp', 'BitCast', 'FunctionToPointerDecay', 'UserDefinedConversion', 'ConstructorConversion', 'DerivedToBase', 'UncheckedDerivedToBase', 'NullToPointer'):
                 return self.eval(fn, n['ch'][0], env)
             raise Unsupported('cast %s at %s' % (cast, fn.loc(i)))
